@@ -245,6 +245,15 @@ def holdsC07 (m : BindModel) (o : BindObs) : Bool :=
 def holdsC08 (m : BindModel) (o : BindObs) : Bool :=
   bindAcceptDiffers m o != some "C08" && (!(o.prepOk && !o.bindOk) || o.events == 0)
 
+/-- C02 / C04: the literal values written in a `(cols) VALUES (…)` insert (with whatever
+    comments and blanks the parser attached to them) appear in the SQL byte for byte -/
+def literalsVerbatim (segs : List OSeg) (o : BindObs) : Bool :=
+  if !(o.prepOk && o.bindOk) || o.mode == "none" then true else
+  segs.all fun s => s.kind != .basicInsert ||
+    s.vals.all fun v => match v with
+      | .lit b => (o.sql.findFrom b 0).isSome
+      | .acc _ => true
+
 /-- C04 (rejections): bulk/omitempty argument errors are raised exactly as in the model -/
 def holdsC04rej (m : BindModel) (o : BindObs) : Bool := bindAcceptDiffers m o != some "C04"
 
